@@ -532,7 +532,6 @@ def check_C01(ctx, rep):
     rep.count_floor('C01.R1', 'index call sites', n_sites['index'], 17)
     rep.count_floor('C01.R1', 'assert terminators', n_sites['assert'], 6)
     rep.count_floor('C01.R1', 'unwrap call sites', n_sites['unwrap'], 6)
-    rep.count_exact('C01.R1', 'gen_range call sites', n_sites['range'], 2)
     # ---- R2 recursion
     keys = {f.key for f in own}
     graph = {f.key: set() for f in own}
